@@ -179,7 +179,7 @@ namespace Givaro {
         // Lf is a Container of factors with probability -- TO EXPLICIT
         // something like : 1 - (big_factor to be composite)*(big_isprime)
         Rep nn,g,r,u;
-        nn = n;
+        if (n<0) Rep::neg(nn,n); else nn=n;
         while(nn > 1) {
             primefactor(g,nn);
             r=0;
